@@ -229,6 +229,10 @@ def gen(rng, tier, dist):
         flat = [p for tb in tabs for p in tb]
         bump(dist, "trees-with-subtree-N>=11", 1 if any(p['sub'] is not None and any(k == 'E' and v >= 11 for k, v in p['segs']) for p in flat) else 0)
         bump(dist, "trees-with-leaf-two-hash", 1 if any(p['sub'] is None and pc.n_hash(p['segs']) >= 2 for p in flat) else 0)
+        # the decidable hypothesis of C09_dispatchable, evaluated on this tree (the driver
+        # prints what the extracted Coq function says; macro recursion ports only)
+        nok = 1 if pc.names_ok(t) and 'M' not in ek else 0
+        bump(dist, "names_ok-trees", nok)
         tables = all_tables(t)
         keys = sorted({k for _, _, k in tables})
         tab_of_key = {}
@@ -262,7 +266,7 @@ def gen(rng, tier, dist):
             buf = rng.choice([b"", b"", b"/", b"/pre/", b"/p0/q/"])
             j = lambda l: ";".join(hx(x) for x in l) if l else "-"
             offs = ";".join("%s:%d" % (hx(tab_of_key[k][0]), 0 if w == 'T' else 1) for k, w in sorted(off)) or "-"
-            out.append("walk %s %s %s %d %s %s %s %s" % (et, ek, hx(buf), rt, j(sorted(set(nulladdrs))), j(dis), j(selfoff), offs))
+            out.append("walk %s %s %s %d %s %s %s %s nok=%d" % (et, ek, hx(buf), rt, j(sorted(set(nulladdrs))), j(dis), j(selfoff), offs, nok))
             bump(dist, "runtime" if rt else "static")
             bump(dist, "pruned-subtrees", len(dis) + len(nulls))
     return out
@@ -314,7 +318,9 @@ def spec_check(case, impl):
                 % (len(got), len(want), k, got[k] if k < len(got) else None, want[k] if k < len(want) else None))
     if unhx(m["buf"]) != pre:
         return "buffer: holds %r afterwards, started with %r" % (unhx(m["buf"]), buf)
-    if tree_ok(t):
+    f = case.split(" ")
+    nok = len(f) > 9 and f[9] == "nok=1"
+    if tree_ok(t) or nok:
         d = m["d"].split(";") if m["d"] != "-" else []
         for (i, a), r in zip(got, d):
             if canon_ids(t, r) != i:
@@ -369,7 +375,13 @@ def canon(case, line):
     w = m["w"]
     if w != "-":
         w = ";".join(canon_ids(t, e.split("@")[0]) + "@" + e.split("@")[1] for e in w.split(";"))
-    return "w=%s buf=%s" % (w, m["buf"])
+    # names_ok: the model line carries the value of the extracted Coq function, the
+    # implementation line gets the generator's own evaluation from the case
+    f = case.split(" ")
+    ok = m.get("ok")
+    if ok is None:
+        ok = "1" if pc.names_ok(t) else "0"
+    return "w=%s buf=%s ok=%s" % (w, m["buf"], ok)
 
 def nontrivial(case, impl):
     f = case.split(" ")
